@@ -20,7 +20,7 @@ pub fn spec() -> Spec {
         rule: "family 'exhaustive': every k x n exponent matrix with entries in [-e, e] for the listed (n, k, e), turned into relators g1^a1 g2^a2 ..., plus 9 metamorphic variants of each (relators reversed / inverted / rotated / conjugated, generators swapped / inverted, product of two relators appended, letters interleaved differently, duplicate relator); family 'walk' (explicit-state BFS): from diagonal seeds, every matrix reachable by <= d elementary unimodular row/column operations (add c*other for c in +-1,+-2; swap; negate), deduplicated, the answer must stay the seed's; family 'dsym': crate presentations of fundamental groups of all DSyms outputs over DSets(2, <= N). Oracle: invariant factors from determinantal divisors (gcd of all k x k minors), for shapes > 4 by i128 elimination with overflow detection; result ascending, no 1s, one 0 per free generator. Non-trivial = rank >= 1 and some invariant factor other than 1, or a free part together with torsion.",
         assumptions: &[],
         bounds: |t| json!({"exhaustive_nke": if t.is_thorough() { json!([[2,2,9],[3,2,3],[2,3,3],[3,3,2],[4,2,1],[2,4,1],[4,3,1],[3,4,1],[1,3,4],[3,1,4]]) } else { json!([[2,2,6],[3,2,2],[2,3,2],[3,3,2],[4,2,1],[2,4,1],[1,3,4],[3,1,4]]) },
-            "walk_depth_small_shapes": t.pick(4, 5), "walk_depth_3x3": 3, "walk_depth_large_shapes": t.pick(2, 2), "walk_coefficients": [1, -1, 2, -2], "moderate_entries_family": "2 x 2 over 8 [14] values up to 1001 in size, and 2 x 3 / 3 x 3 / 2 x 4 patterns over 6 values up to 210", "dsym_dsets_max_size": t.pick(6, 8)}),
+            "walk_depth_small_shapes": t.pick(4, 5), "walk_depth_3x3": 3, "walk_depth_large_shapes": t.pick(2, 2), "walk_coefficients": [1, -1, 2, -2], "dense_family": "all circulants of 5-6 [7] generators over [-2, 2]; 343 arithmetic patterns with entries up to 9 in size for each of 6-8 [10] generators", "moderate_entries_family": "2 x 2 over 8 [14] values up to 1001 in size, and 2 x 3 / 3 x 3 / 2 x 4 patterns over 6 values up to 210", "dsym_dsets_max_size": t.pick(6, 8)}),
     }
 }
 
@@ -367,6 +367,66 @@ fn run(ctx: &mut Ctx) {
                         check_matrix(ctx, 3, &vec![vec![*a, *b, *c], vec![*c, *a, -*b]], false);
                         check_matrix(ctx, 3, &vec![vec![*a, *b, *c], vec![*b, *c, *a], vec![*c, -*a, *b]], false);
                         check_matrix(ctx, 4, &vec![vec![*a, *b, *c, 1], vec![*b, *c, 2, *a]], false);
+                    }
+                }
+            }
+        }
+    }
+    // dense matrices of 5-8 generators: all circulants over a small alphabet and a family of arithmetic patterns
+    // with entries up to 9 in size (elimination with Bezout coefficients lets intermediate values explode on
+    // dense matrices although every invariant factor stays small)
+    {
+        fn dense_case(ctx: &mut Ctx, rows: Vec<Vec<i64>>) {
+            let n = rows[0].len();
+            let case = json!({"family": "dense", "ngens": n, "rows": rows});
+            ctx.announce(&case);
+            let f = match invariant_factors_elim(&rows, n) {
+                Some(f) => f,
+                None => {
+                    ctx.add("dense_reference_overflow", 1);
+                    return;
+                }
+            };
+            let mut expected: Vec<i128> = f.iter().cloned().filter(|&x| x != 1).collect();
+            for _ in f.len()..n {
+                expected.push(0);
+            }
+            expected.sort();
+            ctx.count(expected.iter().any(|&x| x > 1));
+            let rels: Vec<Word> = rows.iter().map(|r| word_from_row(r)).collect();
+            let weight = 5000 + rows.iter().map(|r| r.iter().map(|x| x.unsigned_abs()).sum::<u64>()).sum::<u64>();
+            check_presentation(ctx, &case, n, &rels, &expected, weight);
+        }
+        // the 6 x 6 matrix on which the overflow was first seen, and its row rotations
+        let seen: Vec<Vec<i64>> = vec![vec![-6, 4, 4, 2, -2, 5], vec![8, 3, 1, 9, -4, -8], vec![-8, 2, 5, -4, 5, 9], vec![2, 2, -5, 5, -3, 8], vec![6, 8, 0, -3, -5, -2], vec![0, -6, -7, -2, 4, 7]];
+        for k in 0..6 {
+            if ctx.take() {
+                let mut m = seen.clone();
+                m.rotate_left(k);
+                dense_case(ctx, m);
+            }
+        }
+        for n in 5..=tier.pick(6usize, 7usize) {
+            let alphabet: Vec<i64> = vec![-2, -1, 0, 1, 2];
+            let total = alphabet.len().pow(n as u32);
+            for code in 0..total {
+                if !ctx.take() {
+                    continue;
+                }
+                let mut c = code;
+                let first: Vec<i64> = (0..n).map(|_| { let x = alphabet[c % alphabet.len()]; c /= alphabet.len(); x }).collect();
+                let rows: Vec<Vec<i64>> = (0..n).map(|i| (0..n).map(|j| first[(j + n - i) % n]).collect()).collect();
+                dense_case(ctx, rows);
+            }
+        }
+        for n in 6..=tier.pick(8usize, 10usize) {
+            for a in 0..7i64 {
+                for b in 0..7i64 {
+                    for c in 0..7i64 {
+                        if ctx.take() {
+                            let rows: Vec<Vec<i64>> = (0..n as i64).map(|i| (0..n as i64).map(|j| (a * i * j + b * i * i + c * j + i + 2 * j * j) % 19 - 9).collect()).collect();
+                            dense_case(ctx, rows);
+                        }
                     }
                 }
             }
